@@ -61,6 +61,11 @@ def generate(rng, tier, index):
     spec["materials"] = {"mode": "random", "seed": int(rng.integers(0, 2**31)), "eps_tier": "iso"}
     spec["sources"] = [specgen.rand_dipole(rng, "s0", shape, specgen.inner_region(shape, faces), T, allow_switch=False)]
     spec["init_seed"] = int(rng.integers(0, 2**31))
+    # one scene in three stores complex-valued fields with a genuinely complex random initial state: the accumulated phasor
+    # is then the windowed DFT of a *complex* history (field detectors log it with a complex dtype)
+    cplx = bool(rng.uniform() < 0.34)
+    if cplx:
+        spec["complex"] = True
     dets = []
 
     def group(prefix, box, extra_kind=None):
@@ -70,6 +75,8 @@ def generate(rng, tier, index):
             sw = None
         exact = bool(rng.uniform() < 0.6)
         base = {"box": box, "exact": exact}
+        if cplx:
+            base["complex_dtype"] = True
         if sw:
             base["switch"] = sw
         return base
@@ -87,6 +94,7 @@ def generate(rng, tier, index):
     b = group("p", pbox)
     dets.append({"kind": "field", "name": "p_field", "components": ALL6, "reduce": False, **b})
     dets.append({"kind": "phasor_poynting", "name": "p_flux", "direction": specgen.choice(rng, ["+", "-"]), "fixed_propagation_axis": ax, **_popts(rng, T), **b})
+    dets.append({"kind": "phasor_poynting", "name": "p_flux_all", "direction": specgen.choice(rng, ["+", "-"]), "fixed_propagation_axis": ax, "keep_all_components": True, **_popts(rng, T), **b})
     cbox = specgen.rand_box(rng, shape, min_size=2, max_size=5)
     b = group("c", cbox)
     dets.append({"kind": "field", "name": "c_field", "components": ALL6, "reduce": False, **b})
@@ -216,11 +224,21 @@ def execute(spec):
             nontrivial |= cmp("phasor_vs_windowed_dft", D[f"{d['name']}/phasor"][0], want, tol, info)
         elif d["kind"] == "phasor_poynting":
             a = spec["plane_axis"]
-            S = np.real(np.cross(want6[:, :3], np.conj(want6[:, 3:]), axis=1))[:, a]
-            flux = np.sum(S * area(d["box"], a)[None], axis=(1, 2, 3)) * (0.5 if cont else 1.0) * (-1.0 if d["direction"] == "-" else 1.0)
+            S3 = np.real(np.cross(want6[:, :3], np.conj(want6[:, 3:]), axis=1))
+            fac = (0.5 if cont else 1.0) * (-1.0 if d["direction"] == "-" else 1.0)
             obj = scn.objects[d["name"]]
             got = np.array(obj.compute_poynting_flux({k.split("/")[1]: jnp.asarray(v) for k, v in D.items() if k.startswith(d["name"] + "/")}))
-            ref = np.sum(np.abs(S) * area(d["box"], a)[None], axis=(1, 2, 3))
+            if d.get("keep_all_components"):  # (nf, 3): component b integrated with the face areas normal to b
+                flux = np.stack([np.sum(S3[:, b_] * area(d["box"], b_)[None], axis=(1, 2, 3)) for b_ in range(3)], axis=1) * fac
+                ref = np.stack([np.sum(np.abs(S3[:, b_]) * area(d["box"], b_)[None], axis=(1, 2, 3)) for b_ in range(3)], axis=1)
+                ref = np.broadcast_to(ref.max(axis=1, keepdims=True), ref.shape)
+            else:
+                S = S3[:, a]
+                flux = np.sum(S * area(d["box"], a)[None], axis=(1, 2, 3)) * fac
+                ref = np.sum(np.abs(S) * area(d["box"], a)[None], axis=(1, 2, 3))
+            if got.shape != flux.shape:
+                viol.append({"monitor": "phasor_poynting_plane", "metric": "shape", "value": list(got.shape), "tolerance": list(flux.shape), **info})
+                continue
             dd = float(np.max(np.abs(got - flux) / np.maximum(ref, 1e-300))) if ref.max() > 0 else 0.0
             resid["phasor_poynting_plane"] = max(resid.get("phasor_poynting_plane", 0.0), dd)
             stats["phasors_checked"] = stats.get("phasors_checked", 0) + 1
@@ -247,6 +265,8 @@ def execute(spec):
             stats["phasors_checked"] = stats.get("phasors_checked", 0) + 1
             if not (dd <= tol * 10):
                 viol.append({"monitor": "phasor_poynting_closed", "metric": "rel_diff", "value": dd, "tolerance": tol * 10, **info})
+    stats["probe_complex_fields"] = int(bool(spec.get("complex")))
+    stats["probe_complex_history"] = int(bool(spec.get("complex")) and bool(np.iscomplexobj(D["v_field/fields"])) and float(np.max(np.abs(np.imag(D["v_field/fields"])))) > 0)
     stats["probe_window"] = sum(1 for d in spec["detectors"] if d.get("window"))
     stats["probe_stride_gt1"] = sum(1 for d in spec["detectors"] if d.get("dft_subsample", 1) not in (1,))
     stats["probe_pulse_mode"] = sum(1 for d in spec["detectors"] if d.get("scaling_mode") == "pulse")
